@@ -44,6 +44,11 @@ Obs(ty, x, y) ==
               \o [i \in 1..n |-> SExpr(Blk(Obs(ty.es[i], PNames[i], QNames[i])))]
     [] ty.k = "arr" ->
          IF ty.n = 0 THEN <<>>
+         ELSE IF ty.n > 8
+         THEN \* a long array is cast to the pair of its two blocks (documented layout) and compared block-wise
+              LET r == LargestPow2Below(ty.n)
+                  st == TTup(<<TArr(ty.e, ty.n - r), TArr(ty.e, r)>>)
+              IN <<SLet(PId("p1"), st, CastE(ty, V(x))), SLet(PId("q1"), st, CastE(ty, V(y))), SExpr(Blk(Obs(st, "p1", "q1")))>>
          ELSE <<SLet(PArr([i \in 1..ty.n |-> PId(PNames[i])]), ty, V(x)),
                 SLet(PArr([i \in 1..ty.n |-> PId(QNames[i])]), ty, V(y))>>
               \o [i \in 1..ty.n |-> SExpr(Blk(Obs(ty.e, PNames[i], QNames[i])))]
